@@ -254,6 +254,7 @@ type e3Scenario struct {
 	OneField   bool // all files under one form field name
 	Debug      bool // Runtime.Debug: request and response are dumped to the logger
 	WithClient bool // the Runtime is built around an existing http.Client (NewWithClient), reuse enabled afterwards
+	BareClient bool // ... and that client has no Transport of its own (the process default transport is the scripted one)
 	// twin scenarios only:
 	TwinTimeouts bool // the first call asks for a request timeout of one hour, the second for none
 	TwinStalls   bool // the second call has no deadline at all and its response body never ends
@@ -280,6 +281,7 @@ func e3Scenarios() []e3Scenario {
 		{Name: "json-payload-cancelled", Payload: "json", Canceller: true},
 		{Name: "json-payload-debug-reuse", Payload: "json", Debug: true, Reuse: true},
 		{Name: "json-payload-reuse-enabled-on-existing-client", Payload: "json", Reuse: true, WithClient: true},
+		{Name: "json-payload-reuse-enabled-on-existing-bare-client", Payload: "json", Reuse: true, WithClient: true, BareClient: true},
 		{Name: "two-overlapping-uploads", Fields: true, Files: 1, Twin: true, NoSrcFault: true},
 		{Name: "two-overlapping-uploads-reuse-faults", Files: 1, Twin: true, Reuse: true},
 		{Name: "two-overlapping-calls-different-timeouts", Payload: "json", Twin: true, TwinTimeouts: true},
@@ -365,7 +367,14 @@ func (w *e3World) body() {
 	}
 	rt := client.New("example.test", basePath, []string{"http"})
 	if sc.WithClient {
-		rt = client.NewWithClient("example.test", basePath, []string{"http"}, &http.Client{Transport: w.tr})
+		hc := &http.Client{Transport: w.tr}
+		if sc.BareClient {
+			// a client that relies on the default transport: whatever path the request takes, it ends
+			// at the scripted transport of this execution (one execution at a time per process)
+			hc = &http.Client{}
+			http.DefaultTransport = w.tr
+		}
+		rt = client.NewWithClient("example.test", basePath, []string{"http"}, hc)
 	}
 	rt.Transport = w.tr
 	if sc.Debug {
